@@ -12,6 +12,7 @@ import (
 	"github.com/gofiber/utils/v2"
 	"github.com/tinylib/msgp/msgp"
 	"github.com/valyala/bytebufferpool"
+	"github.com/valyala/fasthttp"
 )
 
 // Pool for redirection
@@ -318,8 +319,13 @@ func (r *Redirect) parseAndClearFlashMessages() {
 		r.c.flashMessages = append(r.c.flashMessages, msg)
 	}
 
-	// the messages are consumed, expire the cookie on the client
-	r.c.ClearCookie(FlashCookieName)
+	// the messages are consumed, expire the cookie on the client - on the path it was issued for,
+	// otherwise a client keeps it when the landing URL lies below a directory
+	r.c.Cookie(&Cookie{
+		Name:    FlashCookieName,
+		Path:    "/",
+		Expires: fasthttp.CookieExpireDelete,
+	})
 }
 
 // processFlashMessages is a helper function to process flash messages and old input data
@@ -337,6 +343,7 @@ func (r *Redirect) processFlashMessages() {
 	r.c.Cookie(&Cookie{
 		Name:        FlashCookieName,
 		Value:       r.c.app.getString(val),
+		Path:        "/",
 		SessionOnly: true,
 	})
 }
